@@ -441,6 +441,13 @@ def run_rvs(case):
             nontrivial = True
         if cons.calls > 1:
             labels.append('needed-retry')
+    # the array that was returned belongs to the caller: later calls (same size, another seed) must not change it
+    snap = out.copy()
+    cons_b = None if cons is None else _Constraint(case['constraint'], d, means, cov, w)
+    GMDistribution.rvs(means, size=size, prior_logpdf=cons_b, random_state=np.random.RandomState((case['seed'] + 1) % (2 ** 32)), **kw)
+    if not np.array_equal(out, snap):
+        raise Violation('C13:rvs-result-overwritten-by-later-call', 'the points returned by rvs(size=%r) changed when rvs was called again with another seed: %r became %r'
+                        % (size, snap.tolist(), np.asarray(out).tolist()))
     # deterministic in the seed; a constraint that accepts everything changes nothing
     cons2 = None if cons is None else _Constraint(case['constraint'], d, means, cov, w)
     out2 = np.asarray(GMDistribution.rvs(means, size=size, prior_logpdf=cons2, random_state=np.random.RandomState(case['seed']), **kw))
